@@ -666,6 +666,10 @@ pub fn run_c20(cfg: &Cfg) {
                      obj(vec![("base", sc.to_json()), ("variant", var.to_json()), ("base_result", J::A(a.1.iter().map(out_json).collect())),
                               ("variant_result", J::A(b.1.iter().map(out_json).collect()))]));
         }
+        if let Some(Out::Panic(m)) = a.1.iter().chain(b.1.iter()).find(|o| matches!(o, Out::Panic(_))) {
+            rep.fail(&format!("Linear: a finite query on a finite axis panicked or the entry points disagree: {}", m),
+                     obj(vec![("base", sc.to_json()), ("variant", var.to_json())]));
+        }
         // exact, with NaN/inf poison, against the model at NumXQ
         arena_reset();
         let ax_ = sc.run::<XRat>();
@@ -688,6 +692,15 @@ pub fn run_c20(cfg: &Cfg) {
         let (xv, yv) = (sc.xvals(), sc.yvals());
         let i = bracket_scan(&vals(&xv), &Val::from_f64(q.0));
         let j = bracket_scan(&vals(&yv), &Val::from_f64(q.1));
+        // three more queries inside the same cell, with pairwise different coordinates: the batch forms of the
+        // scenario runner (rank-2 queries, x or y in Fortran order) then pair every x with its own y or not
+        let (xa, xb) = (xv[i] + (xv[i + 1] - xv[i]) * 0.25, xv[i] + (xv[i + 1] - xv[i]) * 0.75);
+        let (ya, yb) = (yv[j] + (yv[j + 1] - yv[j]) * 0.375, yv[j] + (yv[j + 1] - yv[j]) * 0.625);
+        // (only when they are strictly inside the cell: on ulp-spaced axes the fractions round onto a knot, which
+        // belongs to the neighbouring cell)
+        if xv[i] < xa && xa < xb && xb < xv[i + 1] && yv[j] < ya && ya < yb && yb < yv[j + 1] {
+            sc.queries.extend([(xa, yb), (xb, ya), (xb, yb)]);
+        }
         let mut var = sc.clone();
         for a in 0..sc.nx() {
             for b in 0..sc.ny() {
@@ -707,6 +720,10 @@ pub fn run_c20(cfg: &Cfg) {
         let bits = |o: &(BuildOut, Vec<Out>)| -> Vec<String> { o.1.iter().map(|x| format!("{:?}", x)).collect() };
         if a.0 != BuildOut::Built || b.0 != BuildOut::Built || bits(&a) != bits(&b) {
             rep.fail("changing grid values outside the cell changed the Bilinear result (f64, bitwise)",
+                     obj(vec![("base", sc.to_json()), ("variant", var.to_json())]));
+        }
+        if let Some(Out::Panic(m)) = a.1.iter().chain(b.1.iter()).find(|o| matches!(o, Out::Panic(_))) {
+            rep.fail(&format!("Bilinear: a finite query on finite axes panicked or the entry points disagree: {}", m),
                      obj(vec![("base", sc.to_json()), ("variant", var.to_json())]));
         }
         arena_reset();
